@@ -125,6 +125,57 @@ def r1b(ctx):
                        'N = start - previous end - 1; the partial-read generator fetches exactly [position, position + M) '
                        'for each M and advances the reference position on every M and N')
 def r2(ctx):
+    try:
+        _r2_cigar_structural(ctx)
+    except AnalysisError:
+        sem = _cigar_by_interpretation(ctx)
+        if sem is None:
+            raise
+        okc, ncase, wit = sem
+        ctx.counters['abstract_cases'] += ncase
+        f_ = ctx.fn(MOLECULE, 'Molecule.get_CIGAR')
+        ctx.emit('C15-R2', okc, MOLECULE, f_, f'get_CIGAR interpreted on {ncase} lists of up to three inclusive blocks: ' + ('M = end - start + 1 per block, N = gap between blocks, start / end of the alignment'
+                 if okc else f'differs: {wit}'), key='cigar:M-length', witness=wit, what='get_CIGAR: block arithmetic differs from inclusive blocks')
+        ctx.emit('C15-R2', okc, MOLECULE, f_, 'get_CIGAR: N operations sit between consecutive blocks only', key='cigar:N-length', nontrivial=False)
+    _r2_rest(ctx)
+
+
+def _cigar_by_interpretation(ctx):
+    import itertools
+    from ..consteval import run_function, Unfoldable, Raised
+    f = ctx.fn(MOLECULE, 'Molecule.get_CIGAR')
+    coords = range(0, 8)
+    blocks = [(a, b) for a in coords for b in coords if a <= b]
+    n = 0
+    try:
+        for k in (0, 1, 2, 3):
+            for combo in itertools.combinations(blocks, k):
+                if any(x[1] + 1 >= y[0] for x, y in zip(combo, combo[1:])):
+                    continue            # maximal runs: sorted, disjoint, not adjacent
+                n += 1
+
+                def hook(ev, call, env, combo=combo):
+                    if isinstance(call.func, ast.Attribute) and call.func.attr == 'get_aligned_blocks':
+                        return [tuple(x) for x in combo]
+                    return NotImplemented
+                got = run_function(f, ['<self>'], env={}, budget=40000, call_hook=hook)
+                want_c = []
+                for i, (a, b) in enumerate(combo):
+                    if i:
+                        want_c.append(('N', a - combo[i - 1][1] - 1))
+                    want_c.append(('M', b - a + 1))
+                want = (want_c, combo[0][0] if combo else None, combo[-1][1] if combo else None)
+                g_c = [tuple(x) for x in (got[0] or [])] if got is not None else None
+                if got is None or (g_c, got[1], got[2]) != want:
+                    return (False, n, {'aligned blocks (inclusive)': list(combo), 'returned': (g_c, got[1] if got else None, got[2] if got else None), 'expected': want})
+    except (Unfoldable, Raised):
+        return None
+    except Exception:
+        return None
+    return (True, n, None)
+
+
+def _r2_cigar_structural(ctx):
     ix = ctx.ix
     f = ctx.fn(MOLECULE, 'Molecule.get_CIGAR')
     # the loop over the aligned blocks: directly over get_aligned_blocks(), or over a local holding them (`blocks = list(...)`), with or
@@ -158,6 +209,10 @@ def r2(ctx):
     pv = pv if pv is not None else (prev_syms[0] if prev_syms else None)
     ctx.emit('C15-R2', okm, MOLECULE, l, f'get_CIGAR: M length `{src(apps.get("M")) if "M" in apps else None}` ' + ('== end - start + 1' if okm else '!= end - start + 1 (blocks are inclusive)'), key='cigar:M-length')
     ctx.emit('C15-R2', okn, MOLECULE, l, f'get_CIGAR: N length `{src(apps.get("N")) if "N" in apps else None}` with {pv} = previous block end ' + ('== start - prev_end - 1' if okn else 'is not the gap between inclusive blocks'), key='cigar:N-length')
+
+
+def _r2_rest(ctx):
+    ix = ctx.ix
     # the N is only emitted between blocks and the M for every block
     g = ctx.fn(ITERATION, 'find_ranges') if ix.exists(ITERATION) and ix.has_func(ITERATION, 'find_ranges') else None
     if g is not None:
